@@ -94,19 +94,20 @@ pub struct SchemerContext<'a, 'b> {
     pub counter: &'b usize,
 }
 
-// R10: `xs.into_iter().collect()` re-collects a collection into a Vec (same elements)
+// R10: `xs.into_iter().collect()` re-collects a collection into a Vec: same elements, and for a Vec
+// the same order (std: Vec::into_iter yields front to back, FromIterator for Vec pushes in order)
 pub trait VCollect<T> {
-    spec fn elems(&self) -> Set<T>;
+    spec fn collected(&self, s: Seq<T>) -> bool;
     fn vcollect(self) -> (r: Vec<T>)
-        ensures r@.to_set() == self.elems();
+        ensures self.collected(r@);
 }
 impl<T> VCollect<T> for Vec<T> {
-    open spec fn elems(&self) -> Set<T> { self@.to_set() }
+    open spec fn collected(&self, s: Seq<T>) -> bool { s == self@ }
     #[verifier::external_body]
     fn vcollect(self) -> (r: Vec<T>) { self.into_iter().collect() }
 }
 impl<T> VCollect<T> for BTreeSet<T> {
-    open spec fn elems(&self) -> Set<T> { self@ }
+    open spec fn collected(&self, s: Seq<T>) -> bool { s.to_set() == self@ }
     #[verifier::external_body]
     fn vcollect(self) -> (r: Vec<T>) { self.into_iter().collect() }
 }
@@ -115,11 +116,11 @@ impl<T> VCollect<T> for BTreeSet<T> {
 impl Runtype {
     #[verifier::external_body]
     pub fn any_of(vs: Vec<Runtype>) -> (r: Runtype)
-        ensures forall|x: RV| #[trigger] den(r, x) == (exists|m: Runtype| vs@.to_set().contains(m) && #[trigger] den(m, x))
+        ensures forall|x: RV| #[trigger] den(r, x) == any_den(vs@, x)
     { unimplemented!() }
     #[verifier::external_body]
     pub fn all_of(vs: Vec<Runtype>) -> (r: Runtype)
-        ensures forall|x: RV| #[trigger] den(r, x) == (forall|m: Runtype| vs@.to_set().contains(m) ==> #[trigger] den(m, x))
+        ensures forall|x: RV| #[trigger] den(r, x) == all_den(vs@, x)
     { unimplemented!() }
     #[verifier::external_body]
     pub fn st_not(inner: Box<Runtype>) -> (r: Runtype)
@@ -162,4 +163,538 @@ pub open spec fn clause_ok(ctx: SemTypeContext, c: ClauseView, kind: int) -> boo
 }
 pub open spec fn clause_holds(ctx: SemTypeContext, c: ClauseView, x: RV) -> bool {
     all_true(c.0, env_of(ctx, x)) && all_false(c.1, env_of(ctx, x))
+}
+
+pub open spec fn all_den(s: Seq<Runtype>, x: RV) -> bool { forall|i: int| 0 <= i < s.len() ==> den(#[trigger] s[i], x) }
+pub open spec fn any_den(s: Seq<Runtype>, x: RV) -> bool { exists|i: int| 0 <= i < s.len() && den(#[trigger] s[i], x) }
+pub broadcast proof fn lemma_all_den_push(s: Seq<Runtype>, m: Runtype, x: RV)
+    ensures #[trigger] all_den(s.push(m), x) == (all_den(s, x) && den(m, x))
+{
+    if all_den(s.push(m), x) {
+        assert(s.push(m)[s.len() as int] == m);
+        assert forall|i: int| 0 <= i < s.len() implies den(#[trigger] s[i], x) by { assert(s.push(m)[i] == s[i]); }
+    }
+    if all_den(s, x) && den(m, x) {
+        assert forall|i: int| 0 <= i < s.push(m).len() implies den(#[trigger] s.push(m)[i], x) by {
+            if i < s.len() { assert(s.push(m)[i] == s[i]); } else { assert(s.push(m)[i] == m); }
+        }
+    }
+}
+pub broadcast proof fn lemma_any_den_push(s: Seq<Runtype>, m: Runtype, x: RV)
+    ensures #[trigger] any_den(s.push(m), x) == (any_den(s, x) || den(m, x))
+{
+    if any_den(s.push(m), x) {
+        let i = choose|i: int| 0 <= i < s.push(m).len() && den(#[trigger] s.push(m)[i], x);
+        if i < s.len() { assert(s.push(m)[i] == s[i]); } else { assert(s.push(m)[i] == m); }
+    }
+    if any_den(s, x) {
+        let i = choose|i: int| 0 <= i < s.len() && den(#[trigger] s[i], x);
+        assert(s.push(m)[i] == s[i]);
+    }
+    if den(m, x) { assert(s.push(m)[s.len() as int] == m); }
+}
+pub broadcast proof fn lemma_den_empty(x: RV)
+    ensures #[trigger] all_den(Seq::<Runtype>::empty(), x), !#[trigger] any_den(Seq::<Runtype>::empty(), x) {}
+// quantifying over the elements of a sequence or over its set of elements is the same
+pub broadcast proof fn lemma_any_den_as_set(s: Seq<Runtype>, x: RV)
+    ensures #[trigger] any_den(s, x) == (exists|m: Runtype| s.to_set().contains(m) && #[trigger] den(m, x))
+{
+    if any_den(s, x) {
+        let i = choose|i: int| 0 <= i < s.len() && den(#[trigger] s[i], x);
+        assert(s.contains(s[i]));
+        assert(s.to_set().contains(s[i]) && den(s[i], x));
+    }
+    if exists|m: Runtype| s.to_set().contains(m) && #[trigger] den(m, x) {
+        let m = choose|m: Runtype| s.to_set().contains(m) && #[trigger] den(m, x);
+        let i = choose|i: int| 0 <= i < s.len() && s[i] == m;
+        assert(den(s[i], x));
+    }
+}
+pub open spec fn clause_upto(ctx: SemTypeContext, c: ClauseView, kp: int, kn: int, x: RV) -> bool {
+    all_true_upto(c.0, kp, env_of(ctx, x)) && all_false_upto(c.1, kn, env_of(ctx, x))
+}
+
+// every atom of a structured-kind diagram is of that kind and defined in the context's tables
+pub open spec fn atom_ok(ctx: SemTypeContext, a: Atom, kind: int) -> bool {
+    atom_defined(ctx, a) && (match a {
+        Atom::Mapping(_) => kind == 0,
+        Atom::List(_) => kind == 1,
+        Atom::Map(_) => kind == 2,
+        Atom::Set(_) => kind == 3,
+    })
+}
+pub open spec fn bdd_atoms_ok(ctx: SemTypeContext, b: Bdd, kind: int) -> bool
+    decreases b
+{
+    match b {
+        Bdd::True => true,
+        Bdd::False => true,
+        Bdd::Node { atom, left, middle, right } =>
+            atom_ok(ctx, atom, kind) && bdd_atoms_ok(ctx, *left, kind) && bdd_atoms_ok(ctx, *middle, kind) && bdd_atoms_ok(ctx, *right, kind),
+    }
+}
+pub open spec fn seq_atoms_ok(ctx: SemTypeContext, s: Seq<Atom>, kind: int) -> bool {
+    forall|i: int| 0 <= i < s.len() ==> atom_ok(ctx, #[trigger] s[i], kind)
+}
+pub open spec fn rb(b: Rc<Bdd>) -> Bdd { *b }
+pub proof fn lemma_dnf_of_atoms(ctx: SemTypeContext, b: Rc<Bdd>, pos: Seq<Atom>, neg: Seq<Atom>, kind: int)
+    requires bdd_atoms_ok(ctx, rb(b), kind), seq_atoms_ok(ctx, pos, kind), seq_atoms_ok(ctx, neg, kind)
+    ensures forall|k: int| 0 <= k < dnf_of(rb(b), pos, neg).len() ==> clause_ok(ctx, #[trigger] dnf_of(rb(b), pos, neg)[k], kind)
+    decreases rb(b)
+{
+    match rb(b) {
+        Bdd::True => {
+            assert(dnf_of(rb(b), pos, neg) == seq![(pos, neg)]);
+            assert forall|k: int| 0 <= k < dnf_of(rb(b), pos, neg).len() implies clause_ok(ctx, #[trigger] dnf_of(rb(b), pos, neg)[k], kind) by {
+                assert(dnf_of(rb(b), pos, neg)[k] == (pos, neg));
+                assert(atoms_kind_ok(ctx, pos, kind)) by { assert forall|i: int| 0 <= i < pos.len() implies atom_defined(ctx, #[trigger] pos[i]) by { assert(atom_ok(ctx, pos[i], kind)); } }
+                assert(atoms_kind_ok(ctx, neg, kind)) by { assert forall|i: int| 0 <= i < neg.len() implies atom_defined(ctx, #[trigger] neg[i]) by { assert(atom_ok(ctx, neg[i], kind)); } }
+            }
+        }
+        Bdd::False => {}
+        Bdd::Node { atom, left, middle, right } => {
+            let p2 = pos.push(atom);
+            let n2 = neg.push(atom);
+            assert(seq_atoms_ok(ctx, p2, kind)) by {
+                assert forall|i: int| 0 <= i < p2.len() implies atom_ok(ctx, #[trigger] p2[i], kind) by { if i < pos.len() { assert(p2[i] == pos[i]); } else { assert(p2[i] == atom); } }
+            }
+            assert(seq_atoms_ok(ctx, n2, kind)) by {
+                assert forall|i: int| 0 <= i < n2.len() implies atom_ok(ctx, #[trigger] n2[i], kind) by { if i < neg.len() { assert(n2[i] == neg[i]); } else { assert(n2[i] == atom); } }
+            }
+            lemma_dnf_of_atoms(ctx, middle, pos, neg, kind);
+            lemma_dnf_of_atoms(ctx, left, p2, neg, kind);
+            lemma_dnf_of_atoms(ctx, right, pos, n2, kind);
+            let dm = dnf_of(rb(middle), pos, neg);
+            let dl = dnf_of(rb(left), p2, neg);
+            let dr = dnf_of(rb(right), pos, n2);
+            assert(dnf_of(rb(b), pos, neg) == dm + dl + dr);
+            assert forall|k: int| 0 <= k < dnf_of(rb(b), pos, neg).len() implies clause_ok(ctx, #[trigger] dnf_of(rb(b), pos, neg)[k], kind) by {
+                if k < dm.len() { assert((dm + dl + dr)[k] == dm[k]); }
+                else if k < dm.len() + dl.len() { assert((dm + dl + dr)[k] == dl[k - dm.len()]); }
+                else { assert((dm + dl + dr)[k] == dr[k - dm.len() - dl.len()]); }
+            }
+        }
+    }
+}
+// what a *_to_schema caller gets: all clauses of the diagram's DNF are well-kinded
+pub proof fn lemma_dnf_clauses_ok(ctx: SemTypeContext, b: Rc<Bdd>, kind: int, d: Seq<Conjunction>)
+    requires bdd_atoms_ok(ctx, rb(b), kind), dnf_view(d) == dnf_of(rb(b), Seq::empty(), Seq::empty())
+    ensures forall|k: int| 0 <= k < d.len() ==> clause_ok(ctx, conj_view(#[trigger] d[k]), kind)
+{
+    lemma_dnf_of_atoms(ctx, b, Seq::empty(), Seq::empty(), kind);
+    assert forall|k: int| 0 <= k < d.len() implies clause_ok(ctx, conj_view(#[trigger] d[k]), kind) by {
+        assert(dnf_view(d)[k] == conj_view(d[k]));
+        assert(dnf_view(d).len() == d.len());
+    }
+}
+
+// ---------------------------------------------------------------- real values and their abstraction
+pub uninterp spec fn rv_tag(x: RV) -> SubTypeTag;
+pub uninterp spec fn rv_bool(x: RV) -> bool;
+pub uninterp spec fn rv_num(x: RV) -> NumberRepresentationOrFormat;
+pub uninterp spec fn rv_str(x: RV) -> StringLitOrFormat;
+pub uninterp spec fn rv_ta(x: RV) -> TypedArrayKind;
+pub uninterp spec fn rv_vu(x: RV) -> VoidUndefinedSubtype;
+pub open spec fn vabs(ctx: SemTypeContext, x: RV) -> Val {
+    match rv_tag(x) {
+        SubTypeTag::Boolean => Val::Bool(rv_bool(x)),
+        SubTypeTag::Number => Val::Num(rv_num(x)),
+        SubTypeTag::String => Val::Str(rv_str(x)),
+        SubTypeTag::Null => Val::Null,
+        SubTypeTag::OptionalProp => Val::OptionalProp,
+        SubTypeTag::BigInt => Val::BigInt,
+        SubTypeTag::Date => Val::Date,
+        SubTypeTag::VoidUndefined => Val::VU(rv_vu(x)),
+        SubTypeTag::TypedArray => Val::TA(rv_ta(x)),
+        SubTypeTag::Mapping => Val::Mapping(env_of(ctx, x)),
+        SubTypeTag::List => Val::List(env_of(ctx, x)),
+        SubTypeTag::Map => Val::Map(env_of(ctx, x)),
+        SubTypeTag::Set => Val::Set(env_of(ctx, x)),
+    }
+}
+// `undefined` at run time conflates OptionalProp / Void / Undefined, which the engine keeps apart:
+// C07's equation is stated for the other eleven tags
+pub open spec fn visible(t: SubTypeTag) -> bool { t != SubTypeTag::OptionalProp && t != SubTypeTag::VoidUndefined }
+// an atomic object/Map/list/Set type only contains values of its own kind (hypothesis on the
+// uninterpreted atom denotations, stated explicitly where it is used)
+pub open spec fn atoms_kind_pure() -> bool {
+    &&& forall|mt: MappingAtomicType, m: bool, x: RV| #[trigger] mt_den(mt, m, x) ==> rv_tag(x) == (if m { SubTypeTag::Map } else { SubTypeTag::Mapping })
+    &&& forall|lt: ListAtomic, s: bool, x: RV| #[trigger] lt_den(lt, s, x) ==> rv_tag(x) == (if s { SubTypeTag::Set } else { SubTypeTag::List })
+}
+pub open spec fn str_is_const(s: StringLitOrFormat, c: Seq<char>) -> bool {
+    match s {
+        StringLitOrFormat::Tpl(t) => t.0@.len() == 1 && (match t.0@[0] { TplLitTypeItem::StringConst(s2) => s2@ == c, _ => false }),
+        _ => false,
+    }
+}
+// T2 (structural equality of Rust values): two single-constant template literals with the same text are equal
+#[verifier::external_body]
+pub proof fn axiom_tpl_single_ext(a: StringLitOrFormat, b: StringLitOrFormat, c: Seq<char>)
+    requires str_is_const(a, c), str_is_const(b, c)
+    ensures a == b
+{}
+
+// R5 (contract-only, ASSUMED denotations): the leaf constructors of Runtype used by the materialisation
+impl Runtype {
+    #[verifier::external_body] pub fn never() -> (r: Runtype) ensures forall|x: RV| !#[trigger] den(r, x) { unimplemented!() }
+    #[verifier::external_body] pub fn any() -> (r: Runtype) ensures forall|x: RV| #[trigger] den(r, x) { unimplemented!() }
+    #[verifier::external_body] pub fn null() -> (r: Runtype) ensures forall|x: RV| #[trigger] den(r, x) == (rv_tag(x) == SubTypeTag::Null) { unimplemented!() }
+    #[verifier::external_body] pub fn boolean() -> (r: Runtype) ensures forall|x: RV| #[trigger] den(r, x) == (rv_tag(x) == SubTypeTag::Boolean) { unimplemented!() }
+    #[verifier::external_body] pub fn number() -> (r: Runtype) ensures forall|x: RV| #[trigger] den(r, x) == (rv_tag(x) == SubTypeTag::Number) { unimplemented!() }
+    #[verifier::external_body] pub fn string() -> (r: Runtype) ensures forall|x: RV| #[trigger] den(r, x) == (rv_tag(x) == SubTypeTag::String) { unimplemented!() }
+    #[verifier::external_body] pub fn bigint() -> (r: Runtype) ensures forall|x: RV| #[trigger] den(r, x) == (rv_tag(x) == SubTypeTag::BigInt) { unimplemented!() }
+    #[verifier::external_body] pub fn date() -> (r: Runtype) ensures forall|x: RV| #[trigger] den(r, x) == (rv_tag(x) == SubTypeTag::Date) { unimplemented!() }
+    #[verifier::external_body] pub fn any_object() -> (r: Runtype) ensures forall|x: RV| #[trigger] den(r, x) == (rv_tag(x) == SubTypeTag::Mapping) { unimplemented!() }
+    #[verifier::external_body] pub fn any_array_like() -> (r: Runtype) ensures forall|x: RV| #[trigger] den(r, x) == (rv_tag(x) == SubTypeTag::List) { unimplemented!() }
+    #[verifier::external_body] pub fn undefined() -> (r: Runtype) ensures forall|x: RV| #[trigger] den(r, x) ==> !visible(rv_tag(x)) { unimplemented!() }
+    #[verifier::external_body] pub fn void() -> (r: Runtype) ensures forall|x: RV| #[trigger] den(r, x) ==> !visible(rv_tag(x)) { unimplemented!() }
+    #[verifier::external_body] pub fn typed_array(kind: TypedArrayKind) -> (r: Runtype)
+        ensures forall|x: RV| #[trigger] den(r, x) == (rv_tag(x) == SubTypeTag::TypedArray && rv_ta(x) == kind) { unimplemented!() }
+    #[verifier::external_body] pub fn map(key: Box<Runtype>, value: Box<Runtype>) -> (r: Runtype)
+        ensures forall|x: RV| #[trigger] den(r, x) ==> rv_tag(x) == SubTypeTag::Map,
+                (forall|x: RV| den(*key, x)) && (forall|x: RV| den(*value, x)) ==> forall|x: RV| #[trigger] den(r, x) == (rv_tag(x) == SubTypeTag::Map) { unimplemented!() }
+    #[verifier::external_body] pub fn set(value: Box<Runtype>) -> (r: Runtype)
+        ensures forall|x: RV| #[trigger] den(r, x) ==> rv_tag(x) == SubTypeTag::Set,
+                (forall|x: RV| den(*value, x)) ==> forall|x: RV| #[trigger] den(r, x) == (rv_tag(x) == SubTypeTag::Set) { unimplemented!() }
+    #[verifier::external_body] pub fn const_(value: RuntypeConst) -> (r: Runtype)
+        ensures forall|x: RV| #[trigger] den(r, x) == (match value {
+            RuntypeConst::Bool(b) => rv_tag(x) == SubTypeTag::Boolean && rv_bool(x) == b,
+            RuntypeConst::Number(n) => rv_tag(x) == SubTypeTag::Number && rv_num(x) == NumberRepresentationOrFormat::Lit(n),
+        }) { unimplemented!() }
+    #[verifier::external_body] pub fn number_with_format(format: CustomFormat) -> (r: Runtype)
+        ensures forall|x: RV| #[trigger] den(r, x) == (rv_tag(x) == SubTypeTag::Number && rv_num(x) == NumberRepresentationOrFormat::Format(format)) { unimplemented!() }
+    #[verifier::external_body] pub fn string_with_format(format: CustomFormat) -> (r: Runtype)
+        ensures forall|x: RV| #[trigger] den(r, x) == (rv_tag(x) == SubTypeTag::String && rv_str(x) == StringLitOrFormat::Format(format)) { unimplemented!() }
+    #[verifier::external_body] pub fn tpl_lit_type(tpl: TplLitType) -> (r: Runtype)
+        ensures forall|x: RV| #[trigger] den(r, x) == (rv_tag(x) == SubTypeTag::String && rv_str(x) == StringLitOrFormat::Tpl(tpl)) { unimplemented!() }
+    #[verifier::external_body] pub fn single_string_const(it: &str) -> (r: Runtype)
+        ensures forall|x: RV| #[trigger] den(r, x) == (rv_tag(x) == SubTypeTag::String && str_is_const(rv_str(x), it@)) { unimplemented!() }
+}
+// T2: derived Clone on the literal payloads returns an equal value
+pub assume_specification[ <N as Clone>::clone ](x: &N) -> (r: N) ensures r == *x;
+pub assume_specification[ <TplLitType as Clone>::clone ](x: &TplLitType) -> (r: TplLitType) ensures r == *x;
+
+// ---------------------------------------------------------------- sets of alternatives
+pub open spec fn set_den(s: Set<Runtype>, x: RV) -> bool { exists|m: Runtype| s.contains(m) && #[trigger] den(m, x) }
+pub broadcast proof fn lemma_set_den_insert(s: Set<Runtype>, m: Runtype, x: RV)
+    ensures #[trigger] set_den(s.insert(m), x) == (set_den(s, x) || den(m, x))
+{
+    if set_den(s.insert(m), x) {
+        let w = choose|w: Runtype| s.insert(m).contains(w) && #[trigger] den(w, x);
+        if w != m { assert(s.contains(w) && den(w, x)); }
+    }
+    if set_den(s, x) {
+        let w = choose|w: Runtype| s.contains(w) && #[trigger] den(w, x);
+        assert(s.insert(m).contains(w) && den(w, x));
+    }
+    if den(m, x) { assert(s.insert(m).contains(m) && den(m, x)); }
+}
+pub broadcast proof fn lemma_set_den_empty(x: RV)
+    ensures !#[trigger] set_den(Set::<Runtype>::empty(), x) {}
+pub broadcast proof fn lemma_any_den_set_den(s: Seq<Runtype>, x: RV)
+    ensures #[trigger] any_den(s, x) == set_den(s.to_set(), x)
+{
+    lemma_any_den_as_set(s, x);
+}
+
+// stage A: the fully included tags
+pub open spec fn full_upto(all: u32, k: int, x: RV) -> bool {
+    exists|j: int| 0 <= j < k && j < 13 && #[trigger] all_tags()[j] == rv_tag(x) && bit(all, code_of(all_tags()[j]))
+}
+pub broadcast proof fn lemma_full_upto_step(all: u32, k: int, j: int, x: RV)
+    requires 0 <= k < 13, j == k + 1
+    ensures #![trigger full_upto(all, k, x), full_upto(all, j, x)]
+        full_upto(all, j, x) == (full_upto(all, k, x) || (all_tags()[k] == rv_tag(x) && bit(all, code_of(all_tags()[k]))))
+{
+    if full_upto(all, j, x) {
+        let i = choose|i: int| 0 <= i < j && i < 13 && #[trigger] all_tags()[i] == rv_tag(x) && bit(all, code_of(all_tags()[i]));
+        if i < k { assert(0 <= i < k && i < 13 && all_tags()[i] == rv_tag(x) && bit(all, code_of(all_tags()[i]))); }
+    }
+    if full_upto(all, k, x) {
+        let i = choose|i: int| 0 <= i < k && i < 13 && #[trigger] all_tags()[i] == rv_tag(x) && bit(all, code_of(all_tags()[i]));
+        assert(0 <= i < j && i < 13 && all_tags()[i] == rv_tag(x) && bit(all, code_of(all_tags()[i])));
+    }
+    if all_tags()[k] == rv_tag(x) && bit(all, code_of(all_tags()[k])) {
+        assert(0 <= k < j && k < 13 && all_tags()[k] == rv_tag(x) && bit(all, code_of(all_tags()[k])));
+    }
+}
+pub broadcast proof fn lemma_full_upto_zero(all: u32, x: RV)
+    ensures !#[trigger] full_upto(all, 0, x) {}
+pub broadcast proof fn lemma_full_upto_all(all: u32, x: RV)
+    ensures #[trigger] full_upto(all, 13, x) == bit(all, code_of(rv_tag(x)))
+{
+    let t = all_tags();
+    let g = rv_tag(x);
+    let j: int = match g {
+        SubTypeTag::String => 0, SubTypeTag::Boolean => 1, SubTypeTag::Number => 2, SubTypeTag::OptionalProp => 3, SubTypeTag::Null => 4,
+        SubTypeTag::Mapping => 5, SubTypeTag::List => 6, SubTypeTag::BigInt => 7, SubTypeTag::Date => 8, SubTypeTag::VoidUndefined => 9,
+        SubTypeTag::TypedArray => 10, SubTypeTag::Map => 11, SubTypeTag::Set => 12,
+    };
+    assert(t[j] == g);
+    if bit(all, code_of(g)) { assert(0 <= j < 13 && j < 13 && all_tags()[j] == rv_tag(x) && bit(all, code_of(all_tags()[j]))); }
+}
+pub open spec fn elem_upto<T>(s: Seq<T>, k: int, v: T) -> bool { exists|j: int| 0 <= j < k && j < s.len() && #[trigger] s[j] == v }
+pub broadcast proof fn lemma_elem_upto_step<T>(s: Seq<T>, k: int, j: int, v: T)
+    requires 0 <= k < s.len(), j == k + 1
+    ensures #![trigger elem_upto(s, k, v), elem_upto(s, j, v)] elem_upto(s, j, v) == (elem_upto(s, k, v) || s[k] == v)
+{
+    if elem_upto(s, j, v) {
+        let i = choose|i: int| 0 <= i < j && i < s.len() && #[trigger] s[i] == v;
+        if i < k { assert(0 <= i < k && i < s.len() && s[i] == v); }
+    }
+    if elem_upto(s, k, v) {
+        let i = choose|i: int| 0 <= i < k && i < s.len() && #[trigger] s[i] == v;
+        assert(0 <= i < j && i < s.len() && s[i] == v);
+    }
+    if s[k] == v { assert(0 <= k < j && k < s.len() && s[k] == v); }
+}
+pub broadcast proof fn lemma_elem_upto_zero<T>(s: Seq<T>, v: T)
+    ensures !#[trigger] elem_upto(s, 0, v) {}
+pub broadcast proof fn lemma_elem_upto_full<T>(s: Seq<T>, v: T)
+    ensures #[trigger] elem_upto(s, s.len() as int, v) == s.contains(v)
+{
+    if s.contains(v) { let i = choose|i: int| 0 <= i < s.len() && s[i] == v; assert(0 <= i < s.len() && i < s.len() && s[i] == v); }
+}
+
+// stage B: the proper subtypes, entry by entry
+pub open spec fn in_seq_upto(d: PSeq, k: int, v: Val) -> bool {
+    exists|i: int| 0 <= i < k && i < d.len() && ptag(*#[trigger] d[i]) == tag_of(v) && mem_proper(*d[i], v)
+}
+pub broadcast proof fn lemma_in_seq_upto_step(d: PSeq, k: int, j: int, v: Val)
+    requires 0 <= k < d.len(), j == k + 1
+    ensures #![trigger in_seq_upto(d, k, v), in_seq_upto(d, j, v)]
+        in_seq_upto(d, j, v) == (in_seq_upto(d, k, v) || (rtag(d[k]) == tag_of(v) && rmem(d[k], v)))
+{
+    if in_seq_upto(d, j, v) {
+        let i = choose|i: int| 0 <= i < j && i < d.len() && ptag(*#[trigger] d[i]) == tag_of(v) && mem_proper(*d[i], v);
+        if i < k { assert(0 <= i < k && i < d.len() && rtag(d[i]) == tag_of(v) && rmem(d[i], v)); }
+    }
+    if in_seq_upto(d, k, v) {
+        let i = choose|i: int| 0 <= i < k && i < d.len() && ptag(*#[trigger] d[i]) == tag_of(v) && mem_proper(*d[i], v);
+        assert(0 <= i < j && i < d.len() && rtag(d[i]) == tag_of(v) && rmem(d[i], v));
+    }
+    if rtag(d[k]) == tag_of(v) && rmem(d[k], v) { assert(0 <= k < j && k < d.len() && rtag(d[k]) == tag_of(v) && rmem(d[k], v)); }
+}
+pub broadcast proof fn lemma_in_seq_upto_zero(d: PSeq, v: Val)
+    ensures !#[trigger] in_seq_upto(d, 0, v) {}
+pub broadcast proof fn lemma_in_seq_upto_full(d: PSeq, v: Val)
+    ensures #[trigger] in_seq_upto(d, d.len() as int, v) == in_seq(d, v)
+{
+    if in_seq(d, v) {
+        let i = choose|i: int| 0 <= i < d.len() && ptag(*#[trigger] d[i]) == tag_of(v) && mem_proper(*d[i], v);
+        assert(0 <= i < d.len() && i < d.len() && rtag(d[i]) == tag_of(v) && rmem(d[i], v));
+    }
+}
+
+// the diagrams of the structured kinds only mention their own kind of atoms, defined in the context
+pub open spec fn kinds_ok(ctx: SemTypeContext, t: SemType) -> bool {
+    forall|i: int| 0 <= i < t.subtype_data@.len() ==> match *#[trigger] t.subtype_data@[i] {
+        ProperSubtype::Mapping(b) => bdd_atoms_ok(ctx, *b, 0),
+        ProperSubtype::List(b) => bdd_atoms_ok(ctx, *b, 1),
+        ProperSubtype::Map(b) => bdd_atoms_ok(ctx, *b, 2),
+        ProperSubtype::Set(b) => bdd_atoms_ok(ctx, *b, 3),
+        _ => true,
+    }
+}
+// no negation is needed to print the type: literal sets are "allowed" lists and every DNF clause of a
+// diagram has a positive atom. (Outside this fragment the code emits Not<..> members into a *union*,
+// which denote far too much - see known_findings.txt.)
+pub open spec fn bdd_positive(b: Bdd) -> bool {
+    forall|k: int| 0 <= k < dnf_of(b, Seq::empty(), Seq::empty()).len() ==> (#[trigger] dnf_of(b, Seq::empty(), Seq::empty())[k]).0.len() > 0
+}
+pub open spec fn positive_p(p: ProperSubtype) -> bool {
+    match p {
+        ProperSubtype::Number { allowed, values } => allowed,
+        ProperSubtype::String { allowed, values } => allowed,
+        ProperSubtype::VoidUndefined { allowed, values } => allowed,
+        ProperSubtype::TypedArray { allowed, values } => allowed,
+        ProperSubtype::Mapping(b) => bdd_positive(*b),
+        ProperSubtype::List(b) => bdd_positive(*b),
+        ProperSubtype::Map(b) => bdd_positive(*b),
+        ProperSubtype::Set(b) => bdd_positive(*b),
+        ProperSubtype::Boolean(_) => true,
+    }
+}
+pub open spec fn positive_only(t: SemType) -> bool {
+    forall|i: int| 0 <= i < t.subtype_data@.len() ==> positive_p(*#[trigger] t.subtype_data@[i])
+}
+
+// spec-level meaning of the DNF view (mirror of the proved contract of bdd_to_dnf_recursive)
+pub open spec fn clause_true(c: ClauseView, env: Env) -> bool { all_true(c.0, env) && all_false(c.1, env) }
+pub open spec fn dnfv_eval(d: Seq<ClauseView>, env: Env) -> bool { exists|k: int| 0 <= k < d.len() && clause_true(#[trigger] d[k], env) }
+proof fn lemma_dnfv_concat(a: Seq<ClauseView>, b: Seq<ClauseView>, env: Env)
+    ensures dnfv_eval(a + b, env) == (dnfv_eval(a, env) || dnfv_eval(b, env))
+{
+    if dnfv_eval(a + b, env) {
+        let k = choose|k: int| 0 <= k < (a + b).len() && clause_true(#[trigger] (a + b)[k], env);
+        if k < a.len() { assert((a + b)[k] == a[k]); } else { assert((a + b)[k] == b[k - a.len()]); assert(0 <= k - a.len() < b.len() && clause_true(b[k - a.len()], env)); }
+    }
+    if dnfv_eval(a, env) {
+        let k = choose|k: int| 0 <= k < a.len() && clause_true(#[trigger] a[k], env);
+        assert((a + b)[k] == a[k]);
+        assert(0 <= k < (a + b).len() && clause_true((a + b)[k], env));
+    }
+    if dnfv_eval(b, env) {
+        let k = choose|k: int| 0 <= k < b.len() && clause_true(#[trigger] b[k], env);
+        assert((a + b)[k + a.len()] == b[k]);
+        assert(0 <= k + a.len() < (a + b).len() && clause_true((a + b)[k + a.len()], env));
+    }
+}
+pub proof fn lemma_dnf_of_sem(b: Rc<Bdd>, pos: Seq<Atom>, neg: Seq<Atom>, env: Env)
+    ensures dnfv_eval(dnf_of(rb(b), pos, neg), env) == (all_true(pos, env) && all_false(neg, env) && eval(rb(b), env))
+    decreases rb(b)
+{
+    match rb(b) {
+        Bdd::True => {
+            let d = dnf_of(rb(b), pos, neg);
+            assert(d == seq![(pos, neg)]);
+            if all_true(pos, env) && all_false(neg, env) { assert(0 <= 0 < d.len() && clause_true(d[0], env)); }
+            if dnfv_eval(d, env) { let k = choose|k: int| 0 <= k < d.len() && clause_true(#[trigger] d[k], env); assert(d[k] == (pos, neg)); }
+        }
+        Bdd::False => {}
+        Bdd::Node { atom, left, middle, right } => {
+            lemma_dnf_of_sem(middle, pos, neg, env);
+            lemma_dnf_of_sem(left, pos.push(atom), neg, env);
+            lemma_dnf_of_sem(right, pos, neg.push(atom), env);
+            let dm = dnf_of(rb(middle), pos, neg);
+            let dl = dnf_of(rb(left), pos.push(atom), neg);
+            let dr = dnf_of(rb(right), pos, neg.push(atom));
+            assert(dnf_of(rb(b), pos, neg) == dm + dl + dr);
+            lemma_dnfv_concat(dm + dl, dr, env);
+            lemma_dnfv_concat(dm, dl, env);
+            lemma_all_true_push(pos, atom, env);
+            lemma_all_false_push(neg, atom, env);
+        }
+    }
+}
+pub open spec fn kind_tag(kind: int) -> SubTypeTag {
+    if kind == 0 { SubTypeTag::Mapping } else if kind == 1 { SubTypeTag::List } else if kind == 2 { SubTypeTag::Map } else { SubTypeTag::Set }
+}
+// a diagram all of whose clauses have a positive atom only accepts values of its own kind
+pub proof fn lemma_positive_no_leak(ctx: SemTypeContext, b: Rc<Bdd>, kind: int, x: RV)
+    requires 0 <= kind <= 3, bdd_positive(rb(b)), bdd_atoms_ok(ctx, rb(b), kind), atoms_kind_pure(), eval(rb(b), env_of(ctx, x))
+    ensures rv_tag(x) == kind_tag(kind)
+{
+    let env = env_of(ctx, x);
+    let d = dnf_of(rb(b), Seq::empty(), Seq::empty());
+    lemma_dnf_of_sem(b, Seq::empty(), Seq::empty(), env);
+    lemma_dnf_of_atoms(ctx, b, Seq::empty(), Seq::empty(), kind);
+    let k = choose|k: int| 0 <= k < d.len() && clause_true(#[trigger] d[k], env);
+    assert(clause_ok(ctx, d[k], kind));
+    assert(d[k].0.len() > 0);
+    let a = d[k].0[0];
+    assert(env(a));
+    assert(atom_holds(ctx, a, x));
+    assert(atom_defined(ctx, d[k].0[0]));
+}
+
+// ---------------------------------------------------------------- invariants of convert_to_schema_no_cache
+pub open spec fn stage_a(all: u32, acc: Set<Runtype>, k: int) -> bool {
+    forall|x: RV| visible(rv_tag(x)) ==> #[trigger] set_den(acc, x) == full_upto(all, k, x)
+}
+pub open spec fn stage_a_ta(all: u32, acc: Set<Runtype>, k: int, kinds: Seq<TypedArrayKind>, idx: int) -> bool {
+    forall|x: RV| visible(rv_tag(x)) ==> #[trigger] set_den(acc, x)
+        == (full_upto(all, k, x) || (rv_tag(x) == SubTypeTag::TypedArray && elem_upto(kinds, idx, rv_ta(x))))
+}
+pub open spec fn base_b(ctx: SemTypeContext, t: SemType, i: int, x: RV) -> bool {
+    bit(t.all, code_of(rv_tag(x))) || in_seq_upto(t.subtype_data@, i, vabs(ctx, x))
+}
+pub open spec fn stage_b(ctx: SemTypeContext, t: SemType, acc: Set<Runtype>, i: int) -> bool {
+    forall|x: RV| visible(rv_tag(x)) ==> #[trigger] set_den(acc, x) == base_b(ctx, t, i, x)
+}
+pub open spec fn stage_b_num(ctx: SemTypeContext, t: SemType, acc: Set<Runtype>, i: int, values: Seq<NumberRepresentationOrFormat>, idx: int) -> bool {
+    forall|x: RV| visible(rv_tag(x)) ==> #[trigger] set_den(acc, x)
+        == (base_b(ctx, t, i, x) || (rv_tag(x) == SubTypeTag::Number && elem_upto(values, idx, rv_num(x))))
+}
+pub open spec fn stage_b_str(ctx: SemTypeContext, t: SemType, acc: Set<Runtype>, i: int, values: Seq<StringLitOrFormat>, idx: int) -> bool {
+    forall|x: RV| visible(rv_tag(x)) ==> #[trigger] set_den(acc, x)
+        == (base_b(ctx, t, i, x) || (rv_tag(x) == SubTypeTag::String && elem_upto(values, idx, rv_str(x))))
+}
+pub open spec fn stage_b_ta(ctx: SemTypeContext, t: SemType, acc: Set<Runtype>, i: int, values: Seq<TypedArrayKind>, idx: int) -> bool {
+    forall|x: RV| visible(rv_tag(x)) ==> #[trigger] set_den(acc, x)
+        == (base_b(ctx, t, i, x) || (rv_tag(x) == SubTypeTag::TypedArray && elem_upto(values, idx, rv_ta(x))))
+}
+pub open spec fn schema_pre(ctx: SemTypeContext, t: SemType) -> bool {
+    wf(t) && flat(t) && kinds_ok(ctx, t) && atoms_kind_pure()
+}
+
+pub open spec fn all_kinds() -> Seq<TypedArrayKind> {
+    seq![TypedArrayKind::Uint8Array, TypedArrayKind::Uint8ClampedArray, TypedArrayKind::Uint16Array, TypedArrayKind::Uint32Array,
+         TypedArrayKind::Int8Array, TypedArrayKind::Int16Array, TypedArrayKind::Int32Array, TypedArrayKind::Float32Array,
+         TypedArrayKind::Float64Array, TypedArrayKind::BigInt64Array, TypedArrayKind::BigUint64Array]
+}
+pub broadcast proof fn lemma_all_kinds_complete(k: TypedArrayKind)
+    ensures #[trigger] all_kinds().contains(k)
+{
+    let s = all_kinds();
+    let j: int = match k {
+        TypedArrayKind::Uint8Array => 0, TypedArrayKind::Uint8ClampedArray => 1, TypedArrayKind::Uint16Array => 2, TypedArrayKind::Uint32Array => 3,
+        TypedArrayKind::Int8Array => 4, TypedArrayKind::Int16Array => 5, TypedArrayKind::Int32Array => 6, TypedArrayKind::Float32Array => 7,
+        TypedArrayKind::Float64Array => 8, TypedArrayKind::BigInt64Array => 9, TypedArrayKind::BigUint64Array => 10,
+    };
+    assert(s[j] == k);
+}
+
+pub broadcast proof fn lemma_positive_no_leak_b(ctx: SemTypeContext, b: Rc<Bdd>, kind: int, x: RV)
+    requires 0 <= kind <= 3, bdd_positive(*b), bdd_atoms_ok(ctx, *b, kind), atoms_kind_pure()
+    ensures #![trigger eval(*b, env_of(ctx, x)), bdd_atoms_ok(ctx, *b, kind)]
+        eval(*b, env_of(ctx, x)) ==> rv_tag(x) == kind_tag(kind)
+{
+    if eval(rb(b), env_of(ctx, x)) { lemma_positive_no_leak(ctx, b, kind, x); }
+}
+pub broadcast proof fn lemma_tpl_single_ext_b(a: StringLitOrFormat, b: StringLitOrFormat, c: Seq<char>)
+    requires #[trigger] str_is_const(a, c), #[trigger] str_is_const(b, c)
+    ensures a == b
+{
+    axiom_tpl_single_ext(a, b, c);
+}
+
+pub open spec fn text_of(s: StringLitOrFormat) -> Seq<char> {
+    match s {
+        StringLitOrFormat::Tpl(t) => match t.0@[0] { TplLitTypeItem::StringConst(s2) => s2@, _ => Seq::empty() },
+        _ => Seq::empty(),
+    }
+}
+pub broadcast proof fn lemma_flat_str_is_const(s: StringLitOrFormat)
+    requires #[trigger] s.flat_lit()
+    ensures str_is_const(s, text_of(s))
+{}
+
+// ---------------------------------------------------------------- after the fix (intersections with the base type)
+pub open spec fn base_ok(c: ClauseView, kind: int, x: RV) -> bool { c.0.len() == 0 ==> rv_tag(x) == kind_tag(kind) }
+// a clause with a positive atom only holds for values of its own kind
+pub broadcast proof fn lemma_clause_kind(ctx: SemTypeContext, c: ClauseView, kind: int, x: RV)
+    requires atoms_kind_pure(), 0 <= kind <= 3, c.0.len() > 0
+    ensures #![trigger clause_holds(ctx, c, x), clause_ok(ctx, c, kind)]
+        clause_ok(ctx, c, kind) && clause_holds(ctx, c, x) ==> rv_tag(x) == kind_tag(kind)
+{
+    if clause_ok(ctx, c, kind) && clause_holds(ctx, c, x) {
+        let a = c.0[0];
+        assert(env_of(ctx, x)(a));
+        assert(atom_holds(ctx, a, x));
+        assert(atom_defined(ctx, c.0[0]));
+    }
+}
+pub open spec fn kinded_upto(ctx: SemTypeContext, d: Seq<Conjunction>, kind: int, k: int, x: RV) -> bool {
+    rv_tag(x) == kind_tag(kind) && dnf_upto(d, k, env_of(ctx, x))
+}
+pub open spec fn excl_num(values: Seq<NumberRepresentationOrFormat>, idx: int, ex: Seq<Runtype>) -> bool {
+    forall|x: RV| #[trigger] all_den(ex, x) == (rv_tag(x) == SubTypeTag::Number && !elem_upto(values, idx, rv_num(x)))
+}
+pub open spec fn excl_str(values: Seq<StringLitOrFormat>, idx: int, ex: Seq<Runtype>) -> bool {
+    forall|x: RV| #[trigger] all_den(ex, x) == (rv_tag(x) == SubTypeTag::String && !elem_upto(values, idx, rv_str(x)))
+}
+pub open spec fn excl_ta(values: Seq<TypedArrayKind>, idx: int, ex: Seq<Runtype>) -> bool {
+    forall|x: RV| #[trigger] all_den(ex, x) == (rv_tag(x) == SubTypeTag::TypedArray && !elem_upto(values, idx, rv_ta(x)))
+}
+pub open spec fn excl_vu(ex: Seq<Runtype>) -> bool {
+    forall|x: RV| #[trigger] all_den(ex, x) ==> !visible(rv_tag(x))
+}
+pub open spec fn kinds_so_far(acc: Seq<Runtype>, idx: int) -> bool {
+    forall|x: RV| #[trigger] any_den(acc, x) == (rv_tag(x) == SubTypeTag::TypedArray && elem_upto(all_kinds(), idx, rv_ta(x)))
+}
+pub broadcast proof fn lemma_all_den_one(m: Runtype, x: RV)
+    ensures #[trigger] all_den(seq![m], x) == den(m, x)
+{
+    assert(seq![m][0] == m);
 }
